@@ -207,6 +207,8 @@ macro_rules! c07_g_poly {
 }
 #[cfg(feature = "thorough")]
 c07_g_poly!(c07_t_g_polyline_a, 24, [([(0, 0), (0, 1), (4, 3)], 2, (-7, -7))]);
+// two-vertex thick polylines are cheap on the native path (~10 s per draw)
+c07_g_poly!(c07_q_g_polyline_thick2, 14, [([(1, -1), (0, 1)], 3, (-5, -4)), ([(0, 0), (2, 1)], 2, (3, -6))]);
 c07_g_poly!(c07_q_g_polyline_thin, 24, [([(0, 0), (3, 1), (5, 4)], 1, (-2, -9))]);
 #[cfg(feature = "thorough")]
 c07_g_poly!(c07_t_g_polyline_b, 40, [([(0, 0), (4, 2), (1, 5)], 3, (-3, -6))]);
